@@ -1,6 +1,7 @@
 /- Conversion of wire JSON into the model's `J` and `S` (driver boundary; not part of the model). -/
 import KinModel.Drv.Util
 import KinModel.Schema.Events
+import KinModel.Schema.Defaults
 open Lean
 namespace KinModel.Drv
 open KinModel.Schema
@@ -57,7 +58,8 @@ partial def toSWith (comps : List (String × Json)) (fuel : Nat) (refText : Stri
     ref := refText,
     hasDisc := (match disc with | .ok (.obj _) => true | _ => false),
     discProp := (match disc with | .ok d => getStr d "propertyName" | _ => ""),
-    discMapping := discMapping }
+    discMapping := discMapping,
+    dflt := (match j.getObjVal? "default" with | .ok .null => none | .ok d => some (toJ d) | _ => none) }
   .mk kw (subs "allOf") (subs "anyOf") (subs "oneOf") (sub "not") (sub "items") props addl
 
 def toS (j : Json) : S := toSWith [] 0 "" j
@@ -74,13 +76,19 @@ def triples (j : Json) (k : String) : List (String × String × Option Bool) :=
         some (asStr a[0]!, asStr a[1]!, match a[2]! with | .bool b => some b | _ => none) else none
     | _ => none)
 
+/-- the regex oracle of a table holder {regex: [[p,s,b],…]} -/
+def regexOf (j : Json) : String → String → Option Bool :=
+  let rx := triples j "regex"
+  fun p s => match rx.find? (fun t => t.1 == p && t.2.1 == s) with | some t => t.2.2 | none => none
+
 def envOf (j : Json) : Env :=
   let rx := triples j "regex"
   let fm := triples j "formats"
   let ctx := getStr j "ctx"
   { regex := fun p s => match rx.find? (fun t => t.1 == p && t.2.1 == s) with | some t => t.2.2 | none => none,
     strFormat := fun f s => match fm.find? (fun t => t.1 == f && t.2.1 == s) with | some t => t.2.2 | none => none,
-    asreq := ctx == "asreq", asrep := ctx == "asrep", roOff := getBool j "roOff", woOff := getBool j "woOff" }
+    asreq := ctx == "asreq", asrep := ctx == "asrep", roOff := getBool j "roOff", woOff := getBool j "woOff",
+    patOff := getBool j "patOff", dfl := getBool j "dfl" }
 
 end KinModel.Drv
 
